@@ -40,6 +40,21 @@ class Node:
         self.__hidden = 'really private'
 
 
+class Registry:
+    """Holds a nested class: its instances are of type 'Entry' (qualified name Registry.Entry)."""
+
+    class Entry:
+        def __init__(self, key):
+            self.key = key
+
+
+def make_local_class_instance(n):
+    class Point:              # a class defined inside a function: type name 'Point'
+        def __init__(self, x):
+            self.x = x
+    return Point(n)
+
+
 class Child(Person):
     def __init__(self, name, age):
         super().__init__(name, age)
@@ -396,7 +411,10 @@ class GraphGen:
             v = Person('p%d' % r.randrange(9), r.randrange(90), self.value(depth + 1) if r.chance(0.5) else None)
             self.kinds.add('object_private')
         elif c == 7:
-            if r.chance(0.4):
+            if r.chance(0.3):
+                v = Registry.Entry('k%d' % r.randrange(9)) if r.chance(0.5) else make_local_class_instance(r.randrange(9))
+                self.kinds.add('object_of_nested_or_local_class')
+            elif r.chance(0.4):
                 v = Node(r.randrange(9))
                 self.kinds.add('object_attrs_named_after_class')
             else:
